@@ -124,6 +124,9 @@ def run_case(scn, mode, k1=None, k2=None, sig=None, count_only=False, watchdog=N
             while time.monotonic() < deadline and out.ledger_obj.alive():
                 time.sleep(0.02)
             info['alive_after'] = [e['name'] for e in out.ledger_obj.alive()]
+            if info['alive_after']:
+                info['alive_diag'] = [dict(engine.diag_process(e['pid']), task=e['name'], use_cache=e['use_cache'])
+                                      for e in out.ledger_obj.alive()[:2]]
         else:
             # single interrupt: run_tasks must have waited for every worker it launched (give the
             # finished ones a moment to be reaped); whatever is still alive is an orphan
@@ -231,6 +234,7 @@ def run_case(scn, mode, k1=None, k2=None, sig=None, count_only=False, watchdog=N
 
 
 def judge(scn, out, info, mode, double):
+    import json
     import labtech
     import os
     from vlab import engine, events, inject
@@ -283,7 +287,7 @@ def judge(scn, out, info, mode, double):
     if double:
         if info.get('alive_after'):
             bad.append((f'workers-survive-second-interrupt@{site_last}', f'after two interrupts workers still alive: '
-                        f'{info["alive_after"]}'))
+                        f'{info["alive_after"]}; diagnosis: {json.dumps(info.get("alive_diag"), default=repr)[:3000]}'))
         calls = out.trace.calls
         stops = [i for i, c in enumerate(calls) if c['op'] == 'stop']
         if stops:
